@@ -420,6 +420,61 @@ ResetAttrs(c) == [c EXCEPT !.arr = NONE, !.st = NONE, !.stm = 0, !.ss = NONE, !.
                            !.qa = NONE, !.dest = NONE]
 
 ----------------------------------------------------------------------------
+(* Processor sharing (ciw/processor_sharing.py, PSNode).  cfg.nodes[n].c is the sharing capacity,  *)
+(* psR the threshold R.  Time is integer ticks: a division that is not exact cannot be written and  *)
+(* is flagged (in traces the tick scale of the trace makes every division of the code exact).       *)
+
+PsCap(S, n) == NodeCfg(S, n).c
+PsR(S, n) == NodeCfg(S, n).psR
+
+\* update_all_service_end_dates
+RECURSIVE PsUpdateInds(_, _, _, _, _)
+PsUpdateInds(S, n, ids, lastocc, nextocc) ==
+    IF ids = <<>> THEN {S}
+    ELSE LET i == Head(ids)
+             c == Cu(S, i)
+             R == PsR(S, n)
+         IN IF ~c.ws THEN PsUpdateInds(S, n, Tail(ids), lastocc, nextocc)
+            ELSE LET period == S.now - c.lupd
+                     den == Max2(lastocc, R)
+                     num == R * period
+                 IN IF lastocc > 0 /\ num % den # 0 THEN Crash(S, "unmodelled:inexact-division")
+                    ELSE LET share == IF lastocc > 0 THEN num \div den ELSE 0
+                             left2 == c.left - share
+                             prod == left2 * Max2(nextocc, R)
+                         IN IF prod % R # 0 THEN Crash(S, "unmodelled:inexact-division")
+                            ELSE PsUpdateInds(SetCu(S, i, [c EXCEPT !.left = left2, !.se = S.now + (prod \div R), !.lupd = S.now]),
+                                              n, Tail(ids), lastocc, nextocc)
+
+PsUpdate(S, n) ==
+    LET nd == Nd(S, n)
+        nextocc == Min2(nd.count, PsCap(S, n))
+    IN Bind(PsUpdateInds(S, n, AllInds(S, n), nd.psocc, nextocc), LAMBDA T : {[T EXCEPT !.nodes[n].psocc = nextocc]})
+
+\* a customer enters service at a PS node: requirement sampled now
+PsStart(S, n, i) ==
+    LET S1 == SetCu(S, i, [Cu(S, i) EXCEPT !.ss = S.now, !.lupd = S.now])
+        S2 == Step(S1, [St("start") EXCEPT !.n = n, !.i = i, !.s = 0, !.x = S.now])
+    IN DrawSvc(S2, n, i, LAMBDA T, v : {SetCu(T, i, [Cu(T, i) EXCEPT !.st = v, !.stm = 0, !.left = v, !.ws = TRUE])})
+
+\* PSNode.begin_service_if_possible_accept
+PsBeginAccept(S, n, i) ==
+    LET S1 == SetCu(S, i, [Cu(S, i) EXCEPT !.arr = S.now, !.ws = FALSE])
+    IN IF Nd(S1, n).count <= PsCap(S1, n)
+       THEN Bind(PsStart(S1, n, i), LAMBDA T : PsUpdate(T, n))
+       ELSE {S1}
+
+\* PSNode.begin_service_if_possible_release
+PsBeginRelease(S, n) ==
+    LET nd == Nd(S, n)
+        cap == PsCap(S, n)
+        ids == AllInds(S, n)
+    IN IF cap < INF /\ nd.count >= cap
+       THEN IF cap < 1 \/ cap > Len(ids) THEN Crash(S, "IndexError:ps-release")
+            ELSE Bind(PsStart(S, n, ids[cap]), LAMBDA T : PsUpdate(T, n))
+       ELSE PsUpdate(S, n)
+
+----------------------------------------------------------------------------
 (* The mutually recursive heart: accept / start / pre-empt / release /        *)
 (* release-blocked.                                                           *)
 
@@ -468,8 +523,8 @@ NodeAccept(S, n, i) ==
         c2 == [c EXCEPT !.loc = n, !.blk = FALSE, !.ocls = c.cls, !.pcls = c.cls, !.pprio = c.prio, !.qa = nd.count]
         S2 == SetCu(S1, i, c2)
         S3 == [S2 EXCEPT !.nodes[n].q[c.prio + 1] = Append(@, i), !.nodes[n].count = @ + 1]
-    IN IF IsPS(S, n) THEN Crash(S, "unmodelled:ps")
-       ELSE Bind(BeginServiceAccept(S3, n, i), LAMBDA T : {TrkAccept(T, n, i)})
+    IN Bind(IF IsPS(S, n) THEN PsBeginAccept(S3, n, i) ELSE BeginServiceAccept(S3, n, i),
+            LAMBDA T : {TrkAccept(T, n, i)})
 
 \* accept at node d or at the exit
 Accept(S, d, i, completed) ==
@@ -603,7 +658,7 @@ Release(S, n, i, d, reroute) ==
            S4 == TrkRelease(S4b, n, d, i, wasBlocked)
            freed == IF finite /\ ~IsDeadRef(c.srv) THEN c.srv ELSE 0
            afterRestart == IF reroute THEN {S4}
-                           ELSE IF IsPS(S, n) THEN Crash(S4, "unmodelled:ps")
+                           ELSE IF IsPS(S, n) THEN PsBeginRelease(S4, n)
                            ELSE BeginServiceRelease(S4, n, freed)
            afterAccept == Bind(afterRestart, LAMBDA T : Accept(T, d, i, TRUE))
        IN IF reroute THEN afterAccept ELSE Bind(afterAccept, LAMBDA T : ReleaseBlocked(T, n))
@@ -1035,13 +1090,14 @@ Event(S) == UNION {ExecEvent(S, a) : a \in ArgMin(S)}
 
 InitNode(cfg, n) ==
     LET nc == cfg.nodes[n]
-        c == IF nc.kind \in {"sched", "slot"} THEN 0 ELSE nc.c
+        c0 == IF nc.kind \in {"sched", "slot"} THEN 0 ELSE nc.c     \* value at construction
+        c == IF nc.kind = "ps" THEN INF ELSE c0                     \* PSNode: c := inf afterwards
         nsrv == IF c >= INF THEN 0 ELSE c
-    IN [c |-> c, cap |-> IF nc.qcap >= INF \/ c >= INF THEN INF ELSE nc.qcap + c,
+    IN [c |-> c, cap |-> IF nc.qcap >= INF \/ c0 >= INF THEN INF ELSE nc.qcap + c0,
         q |-> [p \in 1..cfg.P |-> <<>>], count |-> 0, insvc |-> 0,
         srv |-> [j \in 1..nsrv |-> [id |-> j, cust |-> 0, busy |-> FALSE, off |-> FALSE, nend |-> INF,
                                      start |-> 0, bt |-> 0, send |-> NONE]],
-        hid |-> c, bq |-> <<>>, lbq |-> 0, intr |-> <<>>, nintr |-> 0,
+        hid |-> c0, bq |-> <<>>, lbq |-> 0, intr |-> <<>>, nintr |-> 0,
         ned |-> IF nc.kind = "sched" THEN nc.sched.off
                 ELSE IF nc.kind = "slot" THEN SlotGen(nc.slot, 1)[1] ELSE INF,
         net |-> IF nc.kind = "sched" THEN "shift_change" ELSE IF nc.kind = "slot" THEN "slotted_service" ELSE "none",
